@@ -117,7 +117,7 @@ def run_server(kconfig, sdkconfig, sdkconfig_rename, default_version=MAX_PROTOCO
 
     if default_version == 1:
         # V1: no 'visibility' key, send value None for any invisible item
-        values_dict = dict((k, v if visible_dict[k] else False) for (k, v) in config_dict.items())
+        values_dict = dict((k, v if visible_dict[k] else None) for (k, v) in config_dict.items())
         json.dump({"version": 1, "values": values_dict, "ranges": ranges_dict}, sys.stdout)
     else:
         # V2 onwards: separate visibility from version
@@ -215,8 +215,12 @@ def run_server(kconfig, sdkconfig, sdkconfig_rename, default_version=MAX_PROTOCO
 
             if req["version"] == 1:
                 # V1 response, invisible items have value None
-                for k in (k for (k, v) in visible_diff.items() if not v):
-                    values_diff[k] = None
+                for k, v in visible_diff.items():
+                    if not v:
+                        values_diff[k] = None
+                    elif k in after:
+                        # became visible again: the client only holds null for it, so resend the value
+                        values_diff[k] = after[k]
                 response = {"version": 1, "values": values_diff, "ranges": ranges_diff}
             else:
                 # V2+ response, separate visibility values
